@@ -14,6 +14,10 @@ import (
 	"os"
 	"path/filepath"
 	"regexp"
+	"runtime"
+	"runtime/debug"
+	"runtime/pprof"
+	"strconv"
 	"strings"
 	"time"
 
@@ -57,6 +61,7 @@ type FuncResult struct {
 	Queries      int                `json:"queries"`
 	Merges       int                `json:"merges"`
 	SolverS      float64            `json:"solver_s"`
+	InitS        float64            `json:"init_s"`
 	WallS        float64            `json:"wall_s"`
 	Witness      map[string]int     `json:"witness"`
 	Inconclusive map[string]int     `json:"inconclusive"`
@@ -101,6 +106,11 @@ func main() {
 		}
 	}
 
+	if pf := os.Getenv("GOSYM_CPUPROFILE"); pf != "" {
+		f, _ := os.Create(pf)
+		pprof.StartCPUProfile(f)
+		defer pprof.StopCPUProfile()
+	}
 	t0 := time.Now()
 	gomod := os.Getenv("GOMODCACHE")
 	if gomod == "" {
@@ -144,6 +154,15 @@ func main() {
 	}
 	prog, spkgs := ssautil.AllPackages(pkgs, ssa.InstantiateGenerics)
 	prog.Build()
+	// the type-checker's side tables and the loader's package graph are no longer needed: drop them so
+	// that the garbage collector does not rescan them during the exploration
+	for _, p := range pkgs {
+		p.TypesInfo = nil
+	}
+	packages.Visit(pkgs, nil, func(p *packages.Package) { p.TypesInfo = nil; p.Syntax = nil })
+	pkgs = nil
+	runtime.GC()
+	debug.SetGCPercent(gcPercent())
 	res.LoadS = time.Since(t0).Seconds()
 	fmt.Fprintf(os.Stderr, "loaded+built %.1fs\n", res.LoadS)
 
@@ -218,6 +237,7 @@ func main() {
 			fr.Witness, fr.Inconclusive = e.Witness, e.Inconcl
 			fr.Violations, fr.Samples = e.Viol, e.Samples
 			fr.SolverS = e.Z.Wall.Seconds()
+			fr.InitS = e.InitWall.Seconds()
 			fr.Executed = e.ExecutedList()
 			fr.Stubs = e.StubList()
 			fr.Truncated = e.Truncated
@@ -229,6 +249,13 @@ func main() {
 		write()
 	}
 	write()
+}
+
+func gcPercent() int {
+	if v, err := strconv.Atoi(os.Getenv("GOSYM_GCPERCENT")); err == nil && v > 0 {
+		return v
+	}
+	return 200
 }
 
 func fatal(err error) {
